@@ -6,7 +6,8 @@
 //! of values out; they never change a value the engine computes, with two documented
 //! exceptions that replace a *source of nondeterminism or a tuning constant*:
 //! `book_choice` (stands in for the random index drawn when picking a book move) and
-//! `lru_capacity` (capacity of the move generator's LRU cache).
+//! `lru_capacity` (capacity of the move generator's LRU cache); and one cost-only seam,
+//! `share_magic_tables` (copy one build of the lookup tables instead of rebuilding them).
 
 use std::sync::atomic::{AtomicBool, AtomicUsize, Ordering};
 use std::sync::{Arc, Mutex, RwLock};
@@ -35,6 +36,7 @@ pub trait Observer: Send + Sync {
 static ENABLED: AtomicBool = AtomicBool::new(false);
 static OBSERVER: RwLock<Option<Arc<dyn Observer>>> = RwLock::new(None);
 static LRU_CAPACITY: AtomicUsize = AtomicUsize::new(0);
+static SHARE_MAGIC_TABLES: AtomicBool = AtomicBool::new(false);
 static BOOK_CHOICE: Mutex<Option<usize>> = Mutex::new(None);
 
 /// Installs (or removes, with `None`) the process-wide observer.
@@ -79,4 +81,14 @@ pub fn set_book_choice(choice: Option<usize>) {
 
 pub fn book_choice() -> Option<usize> {
     *BOOK_CHOICE.lock().unwrap()
+}
+
+/// `true`: generators copy one process-wide build of the magic lookup tables instead of
+/// rebuilding them (the tables are a deterministic function of the build-time constants).
+pub fn set_share_magic_tables(share: bool) {
+    SHARE_MAGIC_TABLES.store(share, Ordering::SeqCst);
+}
+
+pub fn share_magic_tables() -> bool {
+    SHARE_MAGIC_TABLES.load(Ordering::SeqCst)
 }
